@@ -627,3 +627,35 @@ func VerifH_C15_Receive() {
 		}
 	}
 }
+
+// VerifH_C16_ReplicatorMap — C16: the routing table of the replicators is used by an update event being pushed
+// (Peer.pushLogToReplicators, from the goroutine that handles the event bus) while a replicator is being configured
+// (server.updateReplicators, from an API call): two real goroutines, every schedule within the bound, the
+// happens-before race detector on the table.
+func VerifH_C16_ReplicatorMap() {
+	e := lNewEnv()
+	p2, err := peer.Decode(lPeer2)
+	if err != nil {
+		panic("peer.Decode")
+	}
+	e.pids = []peer.ID{e.pid, p2}
+	e.p.host = lHost{}
+	e.p.blockService = lBlockService{}
+	e.p.server.replicators = map[string]map[peer.ID]struct{}{}
+	// the first replicator already receives the first collection
+	e.p.server.updateReplicators(peer.AddrInfo{ID: e.pid}, lSubset(1))
+	verifPush = func(evt event.Update, pid peer.ID) error { return nil }
+	mask := vChoose("collections", 4)
+	vRunThreads(
+		func() {
+			e.p.pushLogToReplicators(event.Update{DocID: lDocIDs[0], Cid: lFakeCid(0, 1), CollectionID: lCols[0], Block: []byte{1, 2, 3}})
+		},
+		func() { e.p.server.updateReplicators(peer.AddrInfo{ID: p2}, lSubset(mask)) },
+	)
+	verifSpawned = nil
+	verifPush = e.push
+	vCover("ran")
+	_, has := e.p.server.replicators[lCols[0]][e.pid]
+	vAssert(has, "configured-replicator-stays-configured")
+	vObserve("done", true)
+}
